@@ -11,7 +11,8 @@ VARIABLES ph, call, res
 vars == <<ph, call, res>>
 Quick == Tier = "quick"
 
-Ang == IF Quick THEN {-5, -3, -2, -1, 0, 1, 2, 3, 4, 6, 9} ELSE -9..9       \* eighth-turns, beyond +-pi and 2pi
+\* eighth-turns, beyond +-pi and 2pi, and a few angles of many turns (8 to 125): the conventions do not depend on the number of turns
+Ang == IF Quick THEN {-201, -5, -3, -2, -1, 0, 1, 2, 3, 4, 6, 9, 67} ELSE (-9..9) \cup {-1001, -201, -67, 67, 203, 998}
 EAng == IF Quick THEN {-3, -2, 0, 1, 2, 3, 4} ELSE -3..4                       \* Euler angles: one full turn of the grid
 Sel(a, b, c) == ~Quick \/ (a + 3 * b + 5 * c) % 3 = Seed % 3
 
